@@ -48,6 +48,9 @@ def plan(tier, seed):
         for mode in AEAD_MODES:
             for i in range(2):
                 specs.append({"kind": mode, "idx": 10 + i, "nshards": 2, "big": True, "budget_s": 230})
+    # messages / associated data of more than 65536 blocks (block-index arithmetic beyond 16 bits: OCB ntz(i), counters)
+    for modes_ in ((("ocb",), ("gcm", "chacha")) if q else (("ocb",), ("gcm",), ("chacha", "eax"), ("ocb",), ("siv", "ccm"))):
+        specs.append({"kind": "huge", "modes": list(modes_), "budget_s": 30 if q else 300, "timeout_s": 900 if q else 2400})
     return specs
 
 
@@ -65,6 +68,8 @@ def finalize(agg, tier):
         out.append("reference model self-test never ran")
     if tier == "thorough" and not c.get("bulk_cases"):
         out.append("no bulk (composition) case ran in the thorough tier")
+    if "huge" in ran and not (c.get("huge_cases:ocb") and c.get("huge_swap_rejected")):
+        out.append("no >65536-block OCB case / block-swap forgery was judged")
     return out
 
 
@@ -276,12 +281,12 @@ class Lib(object):
         """verification paths the documentation defines for this mode and this received tuple"""
         mode = self.mode
         if mode == "siv":
-            return ["dav", "dav-out"]
+            return ["dav", "dav-out", "dav-inplace"]
         p = ["dav", "dec-verify", "hex-lower", "hex-upper"]
         if mode in ("gcm", "ccm", "eax"):
-            p += ["dav-out", "dec-out-verify"]
+            p += ["dav-out", "dec-out-verify", "dav-inplace", "dec-inplace-verify"]
         if mode == "chacha":
-            p += ["dec-out-verify"]
+            p += ["dec-out-verify", "dec-inplace-verify"]
         if ct_len == 0 and n_aad > 0:
             p += ["mac-only", "mac-only-hex"]
         return p
@@ -307,6 +312,12 @@ class Lib(object):
                 buf = bytearray(len(ct))
                 c.decrypt_and_verify(ct, tag, output=buf)
                 pt = bytes(buf)
+            elif path == "dav-inplace":
+                # the received ciphertext is decrypted over itself (output is the input buffer): the MAC must still
+                # be computed over the ciphertext
+                buf = bytearray(ct)
+                c.decrypt_and_verify(buf, tag, output=buf)
+                pt = bytes(buf)
             elif path in ("mac-only", "mac-only-hex"):
                 if path == "mac-only":
                     c.verify(tag)
@@ -314,10 +325,14 @@ class Lib(object):
                     c.hexverify(tag.hex())
                 pt = b""
             else:
-                parts = self.chunks(rng, ct) if path in ("dec-verify", "dec-out-verify") else [ct]
+                parts = self.chunks(rng, ct) if path in ("dec-verify", "dec-out-verify", "dec-inplace-verify") else [ct]
                 out = []
                 for ch in parts:
-                    if path == "dec-out-verify":
+                    if path == "dec-inplace-verify":
+                        buf = bytearray(ch)
+                        c.decrypt(buf, output=buf)
+                        out.append(bytes(buf))
+                    elif path == "dec-out-verify":
                         buf = bytearray(len(ch))
                         c.decrypt(ch, output=buf)
                         out.append(bytes(buf))
@@ -675,7 +690,110 @@ def run(spec, ctx):
     if spec["kind"] in ("kw", "kwp"):
         from monitors import c01_kw
         return c01_kw.run_kw(dict(spec, mode=spec["kind"]), ctx)
+    if spec["kind"] == "huge":
+        return run_huge(spec, ctx)
     run_aead(spec, ctx)
+
+
+def run_huge(spec, ctx):
+    """More than 65536 blocks of message (and, for OCB/GCM/EAX, of associated data).  Oracle: the model's mode logic over the
+    library's validated one-block ECB.  Received tuples: authentic; blocks j and 65536+j exchanged (ciphertext / AAD) with the
+    original tag (must be rejected) and with the model-recomputed tag (must be accepted, plaintext = model's)."""
+    rng = ctx.rng
+    src = CipherSource(ctx, compose=True)
+    modes_ = spec["modes"]
+    it = 0
+    first = True
+    while first or not ctx.expired():
+        first = False
+        mode = modes_[it % len(modes_)]
+        it += 1
+        B = 16
+        nblk = 65536 + rng.choice([2, 3, 17, 40])
+        cfg = {"mode": mode, "cipher": "AES", "klen": rng.choice([16, 32]) if mode != "siv" else 32, "mac_len": 16, "pass_mac_len": False,
+               "decl_msg": True, "decl_assoc": True, "nlen": {"gcm": 12, "eax": 16, "ocb": 15, "chacha": 12, "siv": 16, "ccm": 11}[mode]}
+        key = rb(rng, 32) if mode == "chacha" else gen_key(rng, "AES", cfg["klen"])
+        nonce = rb(rng, cfg["nlen"])
+        big_aad = mode in ("ocb", "gcm", "eax") and it % 2 == 1
+        pt = rb(rng, 4096) * (nblk * B // 4096) + rb(rng, nblk * B % 4096 + rng.choice([0, 1, 15]))
+        # distinct marker blocks at the positions that are exchanged
+        pt = bytearray(pt)
+        for j in (0, 1, 65535, 65536, 65537):
+            pt[j * B:(j + 1) * B] = rb(rng, B)
+        pt = bytes(pt)
+        if big_aad:
+            a = bytearray(rb(rng, 4096) * (nblk * B // 4096 + 1))[:nblk * B + 5]
+            for j in (0, 1, 65535, 65536, 65537):
+                a[j * B:(j + 1) * B] = rb(rng, B)
+            aad = [bytes(a)]
+            pt = pt[:rng.choice([0, 33, 1000])]
+        else:
+            aad = [rb(rng, rng.choice([0, 5, 16]))]
+        lib = Lib(cfg)
+        model = Model(mode, "AES", src)
+        t = 16
+        w = {"mode": mode, "key": key.hex(), "nonce": nonce.hex(), "msg_blocks": len(pt) // B, "aad_bytes": len(aad[0]), "huge": True}
+        ctx.case(("huge", mode, big_aad, len(pt) % B))
+        try:
+            e = lib.new(key, nonce, len(aad[0]), len(pt))
+            for seg in aad:
+                e.update(seg)
+            ct, tag = e.encrypt_and_digest(pt)
+        except Exception as ex:      # noqa
+            ctx.check(False, "accept:%s:encrypt-exception:%s" % (mode, type(ex).__name__), "encryption of a >1 MiB message raised", dict(w, exc=repr(ex)))
+            continue
+        ctx.count("huge_cases:" + mode)
+        mct, mtag = model.seal(key, nonce, aad, pt, t)
+        ctx.check(ct == mct and tag == mtag, "accept:%s:sealed-tuple-not-spec" % mode,
+                  "the (ciphertext, tag) produced by encryption is not the one the specification defines (message/AAD of more than 65536 blocks)",
+                  lambda: dict(w, tag=tag.hex(), model_tag=mtag.hex(),
+                               first_differing_block=next((i // B for i in range(0, len(ct), B) if ct[i:i + B] != mct[i:i + B]), None)))
+
+        def swapped(b, i, j):
+            x = bytearray(b)
+            x[i * B:(i + 1) * B], x[j * B:(j + 1) * B] = x[j * B:(j + 1) * B], x[i * B:(i + 1) * B]
+            return bytes(x)
+        items = [("authentic", aad, ct, tag)]
+        pairs = [(0, 65536), (1, 65537), (65535, 65536)]
+        target = "aad" if big_aad else "ct"
+        for (i, j) in pairs[:2 if ctx.tier == "quick" else 3]:
+            if big_aad:
+                a2 = [swapped(aad[0], i, j)]
+                items.append(("aad-blocks-%d-%d-swapped" % (i, j), a2, ct, tag))
+                items.append(("aad-blocks-%d-%d-swapped+reauth" % (i, j), a2, ct, REAUTH))
+            elif mode != "siv":
+                c2 = swapped(ct, i, j)
+                items.append(("ct-blocks-%d-%d-swapped" % (i, j), aad, c2, tag))
+                items.append(("ct-blocks-%d-%d-swapped+reauth" % (i, j), aad, c2, REAUTH))
+        memo = {}
+        for kind, a_, c_, tg in items:
+            mk = (a_[0], c_)
+            if mk not in memo:
+                try:
+                    memo[mk] = model.open(key, nonce, a_, c_, tag, t)
+                except ValueError:
+                    memo[mk] = (None, None)
+            mpt, exp = memo[mk]
+            if tg is REAUTH:
+                if exp is None:
+                    continue
+                tg = exp
+            valid = exp is not None and tg == exp
+            st, val, obj, parts = lib.run("dav", key, nonce, a_, c_, tg, rng)
+            if valid:
+                ok = st == "ok" and val == mpt
+                ctx.check(ok, "accept:%s:authentic-rejected:huge:%s" % (mode, kind.split("-")[0]),
+                          "a tuple the specification defines as valid was rejected (more than 65536 blocks)", lambda: dict(w, item=kind, outcome=repr(val)[:200]))
+                ctx.count("accepted_authentic:huge")
+            else:
+                ok = st == "exc" and isinstance(val, ValueError)
+                ctx.check(ok, "accept:%s:forged-accepted:blocks-swapped-beyond-65536" % mode if st == "ok" else
+                          "accept:%s:wrong-exception:%s" % (mode, type(val).__name__),
+                          "a message whose blocks j and 65536+j were exchanged was accepted" if st == "ok" else "rejection was not a ValueError",
+                          lambda: dict(w, item=kind, target=target))
+                ctx.count("huge_swap_rejected")
+        if ctx.want_sample():
+            ctx.sample(dict(w, received=[i[0] for i in items]))
 
 
 def run_aead(spec, ctx):
